@@ -70,9 +70,13 @@ assert len(MEMBERS) == 21 and sum(len(v) for v in MEMBERS.values()) == 28
 def abstract(text: str) -> str:
     """Inverse of the expansion table for arbitrary text (fuzzing): character -> class code."""
     out = []
-    for ch in text:
+    for i, ch in enumerate(text):
         if ch == '\n':
             out.append('n')
+        elif ch == '\r' and text[i + 1:i + 2] == '\n':
+            out.append(' ')      # CRLF: str.splitlines() ends the line at the pair; position-wise the '\r' is a trailing blank
+        elif ch in '\r\x0b\x0c\x1c\x1d\x1e\x85\u2028\u2029':
+            out.append('n')      # the other characters str.splitlines() breaks lines at
         elif ch in '_ =()[]{}<>`#.,':
             out.append(ch)
         elif ch == '\t':
